@@ -839,16 +839,20 @@ func (interp *Interpreter) cfg(root *node, sc *scope, importPath, pkgName string
 					}
 					if (sc.global || sc.isRedeclared(dest)) && dest.ident != "_" {
 						shadow := false
-						if n.anc != nil && n.anc.anc != nil && (n.anc.anc.kind == forStmt7 || n.anc.anc.kind == rangeStmt) {
+						body := n.anc // block of the definition, through its var declaration if any
+						for body != nil && (body.kind == varDecl || body.kind == declStmt) {
+							body = body.anc
+						}
+						if body != nil && body.anc != nil && (body.anc.kind == forStmt7 || body.anc.kind == rangeStmt) {
 							// The variables of a loop are defined again for each iteration at
 							// the start of the body (see above). The body is nevertheless a
 							// scope of its own: a variable defined there with the name of a
 							// loop variable is a new one, which shadows the loop variable.
 							nv := 1
-							if n.anc.anc.kind == rangeStmt {
+							if body.anc.kind == rangeStmt {
 								nv = 2
 							}
-							for _, lv := range n.anc.child[:nv] {
+							for _, lv := range body.child[:nv] {
 								if lv.ident == dest.ident {
 									shadow = true
 								}
